@@ -23,11 +23,13 @@ type connPool struct {
 	conns    map[sb.ConnID]*liveConn
 	watchers map[int]*connWatcher
 	nextW    int
+	seq      int
 }
 
 type liveConn struct {
 	conn sb.Conn
 	cc   *grpc.ClientConn
+	seq  int // order of creation
 }
 
 type connWatcher struct {
@@ -50,7 +52,8 @@ func (p *connPool) add(w *World, id string, d *Device) error {
 	}
 	c := sb.NewConnForVerif(sb.ConnID(id), topoapi.ID(d.Target), gc)
 	p.mu.Lock()
-	p.conns[sb.ConnID(id)] = &liveConn{conn: c, cc: cc}
+	p.seq++
+	p.conns[sb.ConnID(id)] = &liveConn{conn: c, cc: cc, seq: p.seq}
 	for _, cw := range p.watchers {
 		cw.q <- c
 	}
@@ -123,17 +126,18 @@ func (v *connView) GetByTarget(ctx context.Context, targetID topoapi.ID) (sb.Cli
 	}
 	v.p.mu.Lock()
 	defer v.p.mu.Unlock()
-	ids := make([]string, 0)
-	for id, c := range v.p.conns {
-		if c.conn.TargetID() == targetID {
-			ids = append(ids, string(id))
+	// the real connection manager keeps one client per target, wrapped in a new Conn whenever its channel becomes
+	// ready again: "the client of the target" is whatever connection is up, i.e. the latest one
+	var best *liveConn
+	for _, c := range v.p.conns {
+		if c.conn.TargetID() == targetID && (best == nil || c.seq > best.seq) {
+			best = c
 		}
 	}
-	if len(ids) == 0 {
+	if best == nil {
 		return nil, errors.NewNotFound("no connection to target %s", targetID)
 	}
-	sort.Strings(ids)
-	return v.p.conns[sb.ConnID(ids[0])].conn, nil
+	return &gatedConn{Conn: best.conn, actor: v.actor, w: v.w}, nil
 }
 
 func (v *connView) Connect(ctx context.Context, target *topoapi.Object) error {
